@@ -52,6 +52,7 @@ def _setup():
     from vf import lokiperf
     lokiperf.silence()
     lokiperf.speedup()
+    lokiperf.cache_fparser_ast()
 
 
 def entry_of(case):
@@ -93,9 +94,16 @@ def ref_obs(case, edits):
     return _REF[k]
 
 
-def _new_foreign(obs, ref):
-    base = {(f[1], f[2], f[3]) for f in (ref.foreign if ref else ())}
-    return [f for f in obs.foreign if (f[1], f[2], f[3]) not in base]
+def _fkey(f):
+    return (f[1], f[2], f[4])       # symbol text, class of the foreign scope, holder field (not the scope's name)
+
+
+def _new_foreign(obs, *bases):
+    base = set()
+    for b in bases:
+        if b is not None:
+            base |= {_fkey(f) for f in b.foreign}
+    return [f for f in obs.foreign if _fkey(f) not in base]
 
 
 def _textdiff(a, b):
@@ -106,9 +114,43 @@ def _textdiff(a, b):
     return f'line count {len(la)} vs {len(lb)}'
 
 
+LINK_OF_CLASS = {'dtype(derived).typedef': 'typedef', 'module': 'module'}
+
+
+def link_kind_of(diff_class):
+    if diff_class.startswith('dtype(procedure)'):
+        return 'procedure'
+    return LINK_OF_CLASS.get(diff_class)
+
+
+def stale_links(orig, clone):
+    """{kind: example} for links of the clone (typedef / procedure / module) whose target lay inside the
+    original unit but does not lie inside the clone."""
+    own_o = {id(s) for s in ue.all_scopes(orig)}
+    own_c = {id(s) for s in ue.all_scopes(clone)}
+    lo, lc = ue.link_targets(orig), ue.link_targets(clone)
+    out = {}
+    if len(lo) == len(lc):
+        for (_, k0, t0), (s1, _, t1) in zip(lo, lc):
+            if id(t0) in own_o and id(t1) not in own_c and k0 not in out:
+                out[k0] = (s1, 'the original' if id(t1) in own_o else 'neither copy')
+    return out
+
+
+def initial_stale_kinds(case):
+    k = ('stale', tkey(case))
+    if k not in _REF:
+        b = unitzoo.build(entry_of(case), case['enrich'])
+        o = b.unit(tuple(case['path']))
+        _REF[k] = set(stale_links(o, o.clone()))
+    return _REF[k]
+
+
 def judge(case, history):
     """Replays `history` on a fresh original/clone pair and judges the *last* transition (the
-    initial state if the history is empty).
+    initial state if the history is empty).  Only what the last transition *newly* breaks is reported:
+    a difference that already existed before it, or that is merely the rendering of a link already
+    reported as stale for this unit's clone, belongs to an earlier signature.
     Returns (status, key, violations): status 'ok' | 'disabled'; violations = [(signature, detail)]."""
     _setup()
     history = norm_hist(history)
@@ -130,20 +172,12 @@ def judge(case, history):
         if ref is not None and oo.text != ref.text:
             viols.append(('initial: cloning changed the code of the original', _textdiff(ref.text, oo.text)))
         for side, o in (('O', oo), ('C', oc)):
-            nf = _new_foreign(o, ref)
-            if nf:
-                viols.append((f'initial: symbol of the {names[side]} scoped outside its own scope chain',
-                              f'{nf[:3]}'))
-        own_o = {id(s) for s in ue.all_scopes(orig)}
-        own_c = {id(s) for s in ue.all_scopes(clone)}
-        lo, lc = ue.link_targets(orig), ue.link_targets(clone)
-        if len(lo) == len(lc):
-            for (_, k0, t0), (s1, _, t1) in zip(lo, lc):
-                if id(t0) in own_o and id(t1) not in own_c:
-                    where = 'the original' if id(t1) in own_o else 'neither copy'
-                    viols.append((f'initial: {k0} link of the clone points into {where}',
-                                  f'symbol {s1} of the clone: its {k0} is an object of {where}'))
-                    break
+            for f in _new_foreign(o, ref):
+                viols.append((f'initial: symbol of the {names[side]} scoped outside its own scope chain: {f[4]}',
+                              f'{f[1]!r} is scoped in {f[2]} {f[3]!r}, which is not in the scope chain of its place'))
+        for kind, (symname, where) in sorted(stale_links(orig, clone).items()):
+            viols.append((f'initial: {kind} link of the clone points into {where}',
+                          f'symbol {symname} of the clone: its {kind} is an object of {where}'))
         return 'ok', hash((oo.text, oo.types, oc.text, oc.types)), _dedupe(viols)
     for side, ed in history[:-1]:
         ue.apply_edit(copies[side], ed)
@@ -153,8 +187,10 @@ def judge(case, history):
     ref = ref_obs(case, side_edits)
     if ref is None:
         return 'disabled', None, []
+    ref_prev = ref_obs(case, side_edits[:-1])
     ref_other = ref_obs(case, tuple(e for s, e in history if s == other))
     before_other = ue.observe(copies[other])
+    before_side = ue.observe(copies[side])
     what = f'{ed[0]} on the {names[side]}'
     try:
         ue.apply_edit(copies[side], ed)
@@ -165,26 +201,33 @@ def judge(case, history):
         after_side, after_other = ue.observe(copies[side]), ue.observe(copies[other])
     except Exception as e:  # pylint: disable=broad-except
         return 'ok', None, [(f'copy unusable after {what}: {type(e).__name__}: {ue.mask_message(e)}', str(e))]
+
+    def explained(diff_class):
+        kind = link_kind_of(diff_class)
+        return kind is not None and kind in initial_stale_kinds(case)
+
     if after_other.text != before_other.text:
         viols.append((f'other copy changed (text) by {what}',
                       f'{names[other]}: ' + _textdiff(before_other.text, after_other.text)))
     else:
         d = ue.diff_types(before_other.types, after_other.types)
-        if d:
+        if d and not explained(d[0]):
             viols.append((f'other copy changed (types: {d[0]}) by {what}', f'{names[other]}: {d[1]}'))
     if after_side.text != ref.text:
-        viols.append((f'edited copy differs from edited fresh unit (text) after {what}',
-                      _textdiff(ref.text, after_side.text)))
+        if before_side.text == ref_prev.text:
+            viols.append((f'edited copy differs from edited fresh unit (text) after {what}',
+                          _textdiff(ref.text, after_side.text)))
     else:
         d = ue.diff_types(ref.types, after_side.types)
-        if d:
+        d0 = ue.diff_types(ref_prev.types, before_side.types)
+        if d and not explained(d[0]) and (d0 is None or d0[0] != d[0]):
             viols.append((f'edited copy differs from edited fresh unit (types: {d[0]}) after {what}', d[1]))
-    for s, o, r in ((side, after_side, ref), (other, after_other, ref_other)):
-        nf = _new_foreign(o, r)
-        if nf:
-            viols.append((f'symbol of the {names[s]} scoped outside its own scope chain after {what}', f'{nf[:3]}'))
+    for s, o, bases in ((side, after_side, (ref, before_side)), (other, after_other, (ref_other, before_other))):
+        for f in _new_foreign(o, *bases):
+            viols.append((f'symbol of the {names[s]} scoped outside its own scope chain after {what}: {f[4]}',
+                          f'{f[1]!r} is scoped in {f[2]} {f[3]!r}'))
     o_, c_ = (after_side, after_other) if side == 'O' else (after_other, after_side)
-    changed = after_side.text != ref_obs(case, side_edits[:-1]).text
+    changed = after_side.text != ref_prev.text
     return 'ok', (hash((o_.text, o_.types, c_.text, c_.types)), changed), _dedupe(viols)
 
 
@@ -210,7 +253,11 @@ def expand(hist):
     if not hist:
         for i, t in enumerate(targets):
             _, key, viols = judge(t, ())
-            out.append((i, ('T', i, key), [(s, make_case(t), d) for s, d in viols]))
+            # a unit whose clone is already flawed is still explored (the flaw is reported once, as a
+            # pseudo-transition of its own); otherwise known findings would hide whole sub-spaces
+            out.append((i, ('T', i, key), []))
+            if viols:
+                out.append((('initial', i), None, [(s, make_case(t), d) for s, d in viols]))
         return out
     t = targets[hist[0]]
     edits = tuple(hist[1:])
@@ -289,7 +336,14 @@ def known_open_signatures():
 
 
 def valid_work(e):
-    return unitzoo.is_valid_fortran(e.source, e.defs)
+    """gfortran accepts the zoo entry, and re-using a memoised fparser tree is invisible to the observations."""
+    from vf import lokiperf
+    ok = unitzoo.is_valid_fortran(e.source, e.defs)
+    lokiperf.uncache_fparser_ast()
+    base = ue.observe(unitzoo.build(e, False).file)
+    lokiperf.cache_fparser_ast()
+    same = all(ue.observe(unitzoo.build(e, False).file) == base for _ in range(3))
+    return ok and same
 
 
 def run(ctx):
@@ -297,7 +351,7 @@ def run(ctx):
     _setup()
     zoo = unitzoo.ZOO_QUICK if ctx.quick else unitzoo.ZOO
     valid = ctx.pmap(valid_work, list(zoo), chunksize=1)
-    ctx.require(all(valid), f'zoo entries rejected by gfortran: {[e.name for e, ok in zip(zoo, valid) if not ok]}')
+    ctx.require(all(valid), f'zoo entries rejected by gfortran or parse-tree cache not transparent: {[e.name for e, ok in zip(zoo, valid) if not ok]}')
     depth = 2
     targets = seeded_order(targets_for(zoo, enriched=not ctx.quick), ctx.seed)
     deep = []
